@@ -118,14 +118,14 @@ def int_literal(n, form, upper=False):
         s = to_base(n, 16)
         return ("0X" if upper else "0x") + (s.upper() if upper else s)
     if form == "bin":
-        return "0b" + to_base(n, 2)
+        return ("0B" if upper else "0b") + to_base(n, 2)
     if form == "oct":
-        return "0o" + to_base(n, 8)
+        return ("0O" if upper else "0o") + to_base(n, 8)
     if form == "b64":
         return "64r" + to_base(n, 64, B64)
     base = int(form)
     s = to_base(n, base)
-    return "%dr%s" % (base, s.upper() if upper else s)
+    return "%d%s%s" % (base, "R" if upper else "r", s.upper() if upper else s)
 
 
 def esc_char(cp, form, quote):
@@ -154,7 +154,7 @@ def check_decode(nl, cases, ctx=None):
             want = mcanon(c["n"])
             nt = c["n"] >= 2 ** 63 or c["form"] != "dec"
         elif t == "rat":
-            src, want, nt = "%dq" % c["n"], {"q": [str(c["n"]), "1"]}, True
+            src, want, nt = "%d%s" % (c["n"], "Q" if c["n"] % 2 else "q"), {"q": [str(c["n"]), "1"]}, True
         elif t == "float":
             src = c["text"]
             want = {"f": fbits(float(c["text"].rstrip("fF")))}
@@ -261,7 +261,12 @@ def run_fuzz(ctx, runs, seeded, seed):
                 f.write('"%s"\n' % t.replace("\\", "\\\\").replace('"', '\\"'))
     cmd = [FUZZ_BIN, "-runs=%d" % runs, "-seed=%d" % (seed + 1), "-max_len=512", "-len_control=0", "-dict=" + dict_path, "-artifact_prefix=" + arts,
            "-print_final_stats=1", "-timeout=120", "-rss_limit_mb=4096", corpus]
-    p = subprocess.run(cmd, capture_output=True, timeout=3600)
+    def unlimit():
+        # the sanitizer runtime reserves terabytes of address space: undo the worker's RLIMIT_AS (soft) for this child
+        import resource
+        _, hard = resource.getrlimit(resource.RLIMIT_AS)
+        resource.setrlimit(resource.RLIMIT_AS, (hard, hard))
+    p = subprocess.run(cmd, capture_output=True, timeout=3600, preexec_fn=unlimit)
     err = p.stderr.decode("utf-8", "replace")
     execs = re.search(r"stat::number_of_executed_units:\s*(\d+)", err)
     nexec = int(execs.group(1)) if execs else 0
@@ -345,7 +350,12 @@ def worker(ctx):
     runaway = st.one_of(st.sampled_from(['"abc', "'abc", "#( never closed", "F\"{1 + ", "B'", "R\"", "[1, 2", "(((", "\\x ->", "a :=", "switch (x) case"]),
                         st.integers(1, 3000).map(lambda n: "9" * n), st.integers(1, 400).map(lambda n: "1" + "e" + "9" * n),
                         st.integers(1, 60).map(lambda n: "%dr%s" % (n, "z" * 5)), st.text(max_size=40))
-    texts = st.one_of(soup, soup2, mut, mut, escapes, runaway)
+    # format-string bodies: flag comments with digit runs of every length (pad widths beyond a machine word included)
+    fmt = st.builds(lambda q, e, fl, w, tail: "F%s{%s #%s%s%s}%s%s" % (q, e, fl, w, tail, "", q), st.sampled_from(['"', "'"]), st.sampled_from(["1", "x", "1 + 2", '"s"', ""]),
+                    st.sampled_from(["", "x", "X", "b", "o", "e", "d", "<", ">", "^", "0", " ", "#"]),
+                    st.one_of(st.integers(0, 200).map(str), st.integers(1, 45).map(lambda k: "9" * k), st.integers(1, 45).map(lambda k: "1" + "0" * k), st.just("18446744073709551616")),
+                    st.sampled_from(["", "x", "d", ".3", " ", "}"]))
+    texts = st.one_of(soup, soup2, mut, mut, escapes, runaway, fmt)
     ctx.hyp(st.lists(texts, min_size=40, max_size=40).map(lambda xs: {"srcs": xs}), lambda c: ctx.check("parse", c), ctx.share(ctx.scale(800, 30000)), label="c15p")
     # decoding
     big = st.one_of(st.integers(0, 300), st.integers(0, 2 ** 70), st.integers(2 ** 63 - 2, 2 ** 64 + 2), st.integers(1, 2000).flatmap(lambda k: st.integers(0, 2 ** k)),
